@@ -32,7 +32,25 @@ func (c09) ID() string { return "C09" }
 
 // c09Exec executes one history on the implementation in a fresh World.  It is a variable so
 // that the tests can substitute an implementation with hidden global state.
-var c09Exec = func(h hist.History) []hist.Obs { return hist.NewWorld().Exec(h) }
+var c09Exec = func(h hist.History) []hist.Obs {
+	w := hist.NewWorld()
+	if c09Maps != nil {
+		w.Maps = c09Maps
+	}
+	return w.Exec(h)
+}
+
+// c09Maps: while non-nil, every World made by c09Exec uses this table of shared map objects
+// (hist.Op.MapKey), so that jobs executed in separate Worlds - one after another or on
+// goroutines - still hand ONE map object to ImportNames.  Set and reset by c09WithMaps only
+// (stream shared-hint-map); nil for every other run: each World then has a table of its own.
+var c09Maps *hist.MapTable
+
+func c09WithMaps(t *hist.MapTable, run func()) {
+	c09Maps = t
+	defer func() { c09Maps = nil }()
+	run()
+}
 
 func c09ExecSafe(h hist.History) (obs []hist.Obs) {
 	defer func() {
@@ -631,6 +649,11 @@ func (c09) Generate(r *rand.Rand, t string) []*Case {
 		out = append(out, c09SharedCase(r, t))
 	}
 	out = append(out, c09RaceCase(seed, t, sets))
+	// added after the older streams so that their draws are unchanged
+	n = tier(t, 150, 6000)
+	for i := 0; i < n; i++ {
+		out = append(out, c09SharedMapCase(r, t))
+	}
 	return out
 }
 
@@ -657,6 +680,8 @@ func (c09) Oracle(c *Case, got []hist.Obs) string {
 		return c09RaceOracle(c)
 	case "shared":
 		return c09SharedOracle(c, got)
+	case "shared-hint-map":
+		return c09SharedMapOracle(c, got)
 	}
 	return c09JobsOracle(c, got)
 }
@@ -757,6 +782,278 @@ func c09SharedOracle(c *Case, got []hist.Obs) string {
 		runs = append(runs, C09Run{fmt.Sprintf("interleaving #%d (Code values still shared)", i+1), per})
 	}
 	return C09Agree(files, base, runs)
+}
+
+// ---- stream shared-hint-map: one map object passed to ImportNames of several Files ----
+
+// c09SharedMapCase: generators that emit many files commonly pass ONE map[string]string to
+// ImportNames of all of them.  N = 3..6 Files (constructor, prefix, anon, NoFormat drawn per
+// File; 1 in 5 has an ImportName/ImportAlias before) receive the same map object (2..5 hints
+// over colliding paths; hist.Op.MapKey "shared") as their first ImportNames call.  Some of
+// them are built and rendered right away.  Then ONE File (A) gets a second ImportNames call
+// with a fresh small map that names an EXTRA path not in the shared map (in 1/3 also an
+// ImportName/ImportAlias for a second extra path), then the other bodies are added in a
+// random interleaving; another File (B, and 1/3 of the others) references the extra
+// path(s) through Qual; renders in random order (1/4 twice), import tables.
+//
+// NonTrivial (measured on the implementation): B built alone shows something else than B
+// built alone with A's late hints applied to it as well, i.e. a hint of A written through to
+// the shared object would be visible in B.
+func c09SharedMapCase(r *rand.Rand, t string) *Case {
+	pool := c09Pool(r)
+	n := 3 + r.Intn(4)
+	k := 2 + r.Intn(4)
+	if k > len(pool)-2 {
+		k = len(pool) - 2
+	}
+	mp := c09Some(r, pool, k)
+	inMap := map[string]bool{}
+	var pairs [][2]string
+	for _, p := range mp {
+		inMap[p] = true
+		pairs = append(pairs, [2]string{p, pick(r, c09Hints)})
+	}
+	var rest []string
+	for _, p := range pool {
+		if !inMap[p] {
+			rest = append(rest, p)
+		}
+	}
+	ex := c09Some(r, rest, 2)
+	extra, extra2 := ex[0], ex[1]
+	a := r.Intn(n)
+	b := (a + 1 + r.Intn(n-1)) % n
+	feats := map[string]bool{}
+	qref := func(p, name string) *term.Stmt {
+		return term.S(term.Named("Var"), term.Id("_"), term.Op("="), term.Qual(p, name))
+	}
+
+	var h hist.History
+	nf := make([]bool, n)
+	for f := 0; f < n; f++ {
+		switch r.Intn(4) {
+		case 0, 1:
+			h = append(h, hist.Op{Kind: "newfile", F: f, A: "p"})
+		case 2:
+			local := pick(r, SafeLocal)
+			if q := pick(r, pool); safeLocal[q] {
+				local = q
+			}
+			for local == extra || local == extra2 { // the extra paths are imported by every File
+				local = pick(r, SafeLocal)
+			}
+			h = append(h, hist.Op{Kind: "newfilepath", F: f, A: local})
+			feats["localpath"] = true
+		default:
+			local := pick(r, PathPool)
+			if q := pick(r, pool); r.Intn(2) == 0 {
+				local = q
+			}
+			for local == extra || local == extra2 {
+				local = pick(r, PathPool)
+			}
+			h = append(h, hist.Op{Kind: "newfilepathname", F: f, A: local, B: "q"})
+			feats["localpath"] = true
+		}
+		if r.Intn(4) == 0 {
+			h = append(h, hist.Op{Kind: "prefix", F: f, A: pick(r, prefixPool)})
+			feats["prefix"] = true
+		}
+		if r.Intn(5) == 0 {
+			h = append(h, hist.Op{Kind: "anon", F: f, Strs: []string{pick(r, pool)}})
+			feats["anon"] = true
+		}
+		if r.Intn(5) == 0 {
+			h = append(h, hist.Op{Kind: pick(r, []string{"importname", "importalias"}), F: f, A: pick(r, pool), B: pick(r, c09Hints)})
+			feats["hint-before-shared-map"] = true
+		}
+		h = append(h, hist.Op{Kind: "importnames", F: f, Pairs: pairs, MapKey: "shared"})
+		nf[f] = r.Intn(3) == 0
+	}
+	body := func(f int) hist.History {
+		var out hist.History
+		paths := append(c09Some(r, mp, 1+r.Intn(len(mp))), c09Some(r, pool, r.Intn(3))...)
+		for _, st := range c09Body(r, pick(r, []string{"refs", "decls"}), paths, 1+r.Intn(3)) {
+			out = append(out, hist.Op{Kind: "fadd", F: f, Code: st})
+		}
+		return out
+	}
+	rendered := map[int]bool{}
+	// some Files (never B) are complete before A's second call
+	for f := 0; f < n; f++ {
+		if f != b && r.Intn(3) == 0 {
+			h = append(h, body(f)...)
+			h = append(h, hist.Op{Kind: "noformat", F: f, Flag: nf[f]}, hist.Op{Kind: "render", F: f})
+			rendered[f] = true
+			feats["render-before-second-call"] = true
+		}
+	}
+	// A's second ImportNames call: a fresh small map naming the extra path
+	second := [][2]string{{extra, pick(r, c09Hints)}}
+	if r.Intn(3) == 0 {
+		second = append(second, [2]string{pick(r, mp), pick(r, c09Hints)}) // also overrides a shared hint, for A only
+		feats["second-call-overrides-shared-hint"] = true
+	}
+	h = append(h, hist.Op{Kind: "importnames", F: a, Pairs: second, MapKey: "second"})
+	extras := []string{extra}
+	if r.Intn(3) == 0 {
+		h = append(h, hist.Op{Kind: pick(r, []string{"importname", "importalias"}), F: a, A: extra2, B: pick(r, c09Hints)})
+		extras = append(extras, extra2)
+		feats["late-importname-too"] = true
+	}
+	jb := map[int]hist.History{}
+	var fs []int
+	for f := 0; f < n; f++ {
+		fs = append(fs, f)
+		if !rendered[f] || r.Intn(2) == 0 {
+			jb[f] = body(f)
+		}
+		if f == a || f == b || r.Intn(3) == 0 {
+			for i, p := range extras {
+				jb[f] = append(jb[f], hist.Op{Kind: "fadd", F: f, Code: qref(p, fmt.Sprintf("E%d", i))})
+			}
+		}
+	}
+	h = append(h, c09Merge(r, fs, jb)...)
+	var renders []int
+	for f := 0; f < n; f++ {
+		renders = append(renders, f)
+		if r.Intn(4) == 0 {
+			renders = append(renders, f)
+		}
+	}
+	r.Shuffle(len(renders), func(i, j int) { renders[i], renders[j] = renders[j], renders[i] })
+	for _, f := range renders {
+		h = append(h, hist.Op{Kind: "noformat", F: f, Flag: nf[f]}, hist.Op{Kind: "render", F: f})
+	}
+	for f := 0; f < n; f++ {
+		h = append(h, hist.Op{Kind: "imports", F: f})
+	}
+	// measured: B built alone, against B built alone with A's late hints applied to it too
+	// right after the shared map (what B would see if A's calls wrote through to the object)
+	_, jobs := C09Jobs(h)
+	var late, leaked hist.History
+	for _, op := range jobs[a] {
+		if op.MapKey == "shared" {
+			late = nil
+			continue
+		}
+		if op.Kind == "importnames" || op.Kind == "importname" || op.Kind == "importalias" {
+			op.F, op.MapKey = b, ""
+			late = append(late, op)
+		}
+	}
+	for _, op := range jobs[b] {
+		leaked = append(leaked, op)
+		if op.MapKey == "shared" {
+			leaked = append(leaked, late...)
+		}
+	}
+	differs := c09SameJob(c09ExecSafe(c09Fresh(jobs[b])), c09ExecSafe(c09Fresh(leaked))) != ""
+	tags := []string{"shared-hint-map", fmt.Sprintf("files=%d", n), fmt.Sprintf("hint-map-files=%d", n), fmt.Sprintf("map-entries=%d", len(pairs)), fmt.Sprintf("leak-would-show=%v", differs)}
+	var ks []string
+	for f := range feats {
+		ks = append(ks, f)
+	}
+	sort.Strings(ks)
+	tags = append(tags, ks...)
+	return &Case{Hist: h, Stream: "shared-hint-map", NonTrivial: differs, Tags: tags, Meta: map[string]interface{}{"seed": r.Int63(), "tier": t}}
+}
+
+// c09MapsIntact: every map object handed to ImportNames still holds exactly the entries it
+// was made with (the caller's map must not be written to).
+func c09MapsIntact(h hist.History, t *hist.MapTable) string {
+	seen := map[string]bool{}
+	for _, op := range h {
+		if op.Kind != "importnames" || op.MapKey == "" || seen[op.MapKey] {
+			continue
+		}
+		seen[op.MapKey] = true
+		m := t.Lookup(op.MapKey)
+		if m == nil {
+			return fmt.Sprintf("the map %q was never handed to ImportNames", op.MapKey)
+		}
+		want := map[string]string{}
+		for _, p := range op.Pairs {
+			want[p[0]] = p[1]
+		}
+		bad := len(m) != len(want)
+		for k, v := range want {
+			if got, ok := m[k]; !ok || got != v {
+				bad = true
+			}
+		}
+		if bad {
+			return fmt.Sprintf("the caller's map %q was modified by ImportNames or by a later call:\n   passed %v\n   now    %v", op.MapKey, want, m)
+		}
+	}
+	return ""
+}
+
+// c09SharedMapOracle: every File shows exactly what the same File shows when it is built
+// alone (fresh World, hence a map object of its own); the same holds for the history run
+// again, the jobs in reverse order, two random interleavings (one World, one map object for
+// all Files) and - only when all of these agreed and left the map untouched, so that a
+// writer to the map cannot crash the process - the jobs on goroutines in separate Worlds
+// that share the object; after every run the caller's maps hold exactly their entries.
+func c09SharedMapOracle(c *Case, got []hist.Obs) string {
+	files, jobs := C09Jobs(c.Hist)
+	base, ok := c09Split(c.Hist, got)
+	if !ok {
+		return fmt.Sprintf("%d observations for a history that makes %d", len(got), c09CountObs(c.Hist))
+	}
+	r := rand.New(rand.NewSource(c09Seed(c)))
+	alone := map[int][]hist.Obs{}
+	for _, f := range files {
+		alone[f] = c09ExecSafe(jobs[f])
+	}
+	if d := C09Agree(files, base, []C09Run{{"the File built alone (a map object of its own)", alone}}); d != "" {
+		return d
+	}
+	type shared struct {
+		name string
+		h    hist.History
+	}
+	var rev hist.History
+	for i := len(files) - 1; i >= 0; i-- {
+		rev = append(rev, jobs[files[i]]...)
+	}
+	runs := []shared{{"the same history again (one map object for all Files)", c.Hist}, {"jobs in reverse order (one map object for all Files)", rev}}
+	for i := 0; i < 2; i++ {
+		runs = append(runs, shared{fmt.Sprintf("interleaving #%d (one map object for all Files)", i+1), c09Merge(r, files, jobs)})
+	}
+	for _, run := range runs {
+		tbl := hist.NewMapTable()
+		var obs []hist.Obs
+		c09WithMaps(tbl, func() { obs = c09ExecSafe(run.h) })
+		per, ok := c09Split(run.h, obs)
+		if !ok {
+			return "run " + run.name + ": wrong number of observations"
+		}
+		if d := C09Agree(files, base, []C09Run{{run.name, per}}); d != "" {
+			return d
+		}
+		if d := c09MapsIntact(run.h, tbl); d != "" {
+			return "run " + run.name + ": " + d
+		}
+	}
+	// goroutines: the objects exist before the jobs start, the jobs only read them
+	tbl := hist.NewMapTable()
+	for _, op := range c.Hist {
+		if op.Kind == "importnames" && op.MapKey != "" {
+			tbl.Get(op.MapKey, op.Pairs)
+		}
+	}
+	var per map[int][]hist.Obs
+	c09WithMaps(tbl, func() { per = C09RunConcurrent(files, jobs, 0) })
+	name := "goroutines, separate Worlds, one map object for all Files"
+	if d := C09Agree(files, base, []C09Run{{name, per}}); d != "" {
+		return d
+	}
+	if d := c09MapsIntact(c.Hist, tbl); d != "" {
+		return "run " + name + ": " + d
+	}
+	return ""
 }
 
 // Shrink: drop a whole job, drop one added statement, drop one setting.
